@@ -4,7 +4,7 @@
 
 package dialect
 
-//@ func (*ReadWriter).GetMessage
+//@ func (*ReadWriter).GetMessage params (rw, id) returns (res)
 //@   requires rw != nil
 //@   ensures  [absent-id-yields-nothing] !mapHasKey(rw.messageRWs, id) ==> res == nil
 //@   ensures  [present-id-yields-its-entry] mapHasKey(rw.messageRWs, id) ==> res == rw.messageRWs[id]
@@ -14,7 +14,7 @@ package dialect
 //@   modifies nothing
 //@   assumes  the message table is not modified after Initialize, so GetMessage is a function of (rw, id): ufDialectHas / ufDialectExtra / ufDialectCodec are DEFINED by its results (defines clauses); table entries satisfy the codec invariant established by message.(*ReadWriter).Initialize
 
-//@ func (*ReadWriter).Initialize
+//@ func (*ReadWriter).Initialize params (rw) returns (err)
 //@   ghostlog (*message.ReadWriter).Initialize
 //@   requires rw != nil && rw.Dialect != nil
 //@   requires forall j int :: 0 <= j && j < len(rw.Dialect.Messages) ==> rw.Dialect.Messages[j] != nil
@@ -32,7 +32,7 @@ package dialect
 //@                      rw.Dialect.Messages[j].GetID() != rw.Dialect.Messages[k].GetID())
 //@   loop 0 modifies *rw.messageRWs
 
-//@ func NewReadWriter returns (rw, err)
+//@ func NewReadWriter params (d) returns (rw, err)
 //@   ghostlog (*dialect.ReadWriter).Initialize
 //@   ensures  rw != nil && rw.Dialect == d && logLen() == 1 && logCallee(0, "(*dialect.ReadWriter).Initialize") && logArgIsPtr(0, 0, rw) && err == logRetErr(0)
 //@   modifies ghost:log
